@@ -8,6 +8,7 @@ import (
 	"sort"
 	"strings"
 
+	"google.golang.org/protobuf/types/known/structpb"
 	appsv1 "k8s.io/api/apps/v1"
 	corev1 "k8s.io/api/core/v1"
 	rbacv1 "k8s.io/api/rbac/v1"
@@ -29,11 +30,11 @@ import (
 	"github.com/crossplane/crossplane-runtime/pkg/resource/unstructured/composite"
 
 	"github.com/crossplane/crossplane/apis"
-	v1 "github.com/crossplane/crossplane/apis/apiextensions/v1"
 	fnv1 "github.com/crossplane/crossplane/apis/apiextensions/fn/proto/v1"
-	apiextensionscontroller "github.com/crossplane/crossplane/internal/controller/apiextensions/controller"
+	v1 "github.com/crossplane/crossplane/apis/apiextensions/v1"
 	xcomposite "github.com/crossplane/crossplane/internal/controller/apiextensions/composite"
 	"github.com/crossplane/crossplane/internal/controller/apiextensions/composition"
+	apiextensionscontroller "github.com/crossplane/crossplane/internal/controller/apiextensions/controller"
 	"github.com/crossplane/crossplane/internal/controller/apiextensions/definition"
 	"github.com/crossplane/crossplane/internal/engine"
 	"github.com/crossplane/crossplane/internal/verifshim/vmap"
@@ -381,4 +382,78 @@ func DescribeWrites(s *simkube.Store, from int) string {
 		}
 	}
 	return b.String()
+}
+
+// ResX is a third composed kind.
+var ResX = schema.GroupVersionKind{Group: "res.example.org", Version: "v1", Kind: "ResX"}
+
+// ComposedKinds lists the composed kinds used by fixtures.
+var ComposedKinds = []schema.GroupVersionKind{ResA, ResB, ResX}
+
+// KindFor maps a desired resource name to its (fixed) kind: a->ResA, b->ResB,
+// everything else ResX.
+func KindFor(name string) schema.GroupVersionKind {
+	switch name {
+	case "a":
+		return ResA
+	case "b":
+		return ResB
+	}
+	return ResX
+}
+
+// DesiredResource builds a desired composed resource for a function response.
+func DesiredResource(name, param string, ready bool) *fnv1.Resource {
+	gvk := KindFor(name)
+	s, err := structpb.NewStruct(map[string]any{
+		"apiVersion": gvk.GroupVersion().String(),
+		"kind":       gvk.Kind,
+		"spec":       map[string]any{"param": param, "for": name},
+	})
+	if err != nil {
+		panic(err)
+	}
+	r := &fnv1.Resource{Resource: s}
+	if ready {
+		r.Ready = fnv1.Ready_READY_TRUE
+	}
+	return r
+}
+
+// ResourceNameOf returns the composition resource name annotation.
+func ResourceNameOf(o metav1.Object) string {
+	return o.GetAnnotations()["crossplane.io/composition-resource-name"]
+}
+
+// ToQuiescence reconciles fault-free until a reconcile changes no object
+// (the reconcilers are stateless, so one write-free reconcile is a fixpoint).
+// It returns false if the horizon is reached first.
+func ToQuiescence(s *simkube.Store, r reconcile.Reconciler, nn types.NamespacedName, horizon int, log func(i int, out Outcome)) bool {
+	for i := 0; i < horizon; i++ {
+		before := s.Versions()
+		out := Reconcile(r, nn)
+		if out.Crashed != nil {
+			panic(explore.HarnessError{Msg: "crash in fault-free reconcile"})
+		}
+		if log != nil {
+			log(i, out)
+		}
+		if SameVersions(before, s.Versions()) {
+			return true
+		}
+	}
+	return false
+}
+
+// SameVersions compares two Versions() snapshots.
+func SameVersions(a, b map[simkube.ObjKey]string) bool {
+	if len(a) != len(b) {
+		return false
+	}
+	for k, v := range a {
+		if b[k] != v {
+			return false
+		}
+	}
+	return true
 }
